@@ -167,8 +167,8 @@ def run(tier):
               iter_utils.MergedSequences.slice, iter_utils.MergedSequences.__getitem__,
               iter_utils._RangeIterator.__next__)
   if tier == 'quick':
-    p = dict(nmax=7, kmax=4, ks_union=[1, 2, 3, 4], depth3=False, lens={2: 2, 3: 1}, lens_any={2: 1, 3: 1}, batches=[1, 2], k2s=[2, 3], offmax=2)
-    timeout = 150
+    p = dict(nmax=7, kmax=4, ks_union=[1, 2, 3, 4], depth3=False, lens={1: 4, 2: 2, 3: 1}, lens_any={1: 2, 2: 1, 3: 1}, batches=[1, 2], k2s=[2, 3], offmax=2)
+    timeout = 300
   else:
     # sized so that the slowest obligation needs < 50% of the timeout on the unchanged tree (nmax=16 / k2s up to 4 / lens[4]=2 did not finish)
     p = dict(nmax=12, kmax=6, ks_union=[1, 2, 3, 4, 5, 6, 7, 8], depth3=True, lens={1: 4, 2: 3, 3: 2, 4: 1}, lens_any={1: 4, 2: 2, 3: 1, 4: 1}, batches=[1, 2, 3], k2s=[1, 2, 3], offmax=2)
